@@ -460,6 +460,36 @@ func rulePURARG(c *Ctx, r *Report) {
 				}
 			}
 		}
+		// the methods of parser and Lexer write through their receivers; that is harmless only while every
+		// receiver is the object allocated for this call — not one reached through a captured variable or a
+		// package-level variable (a lexer built once when an option is made and advanced on every use)
+		for _, fn := range c.Funcs {
+			if !inLib(fn) {
+				continue
+			}
+			for _, b := range fn.Blocks {
+				for _, in := range b.Instrs {
+					call, ok := in.(*ssa.Call)
+					if !ok || call.Call.StaticCallee() == nil || len(call.Call.Args) == 0 {
+						continue
+					}
+					g := call.Call.StaticCallee()
+					recv := g.Signature.Recv()
+					if recv == nil {
+						continue
+					}
+					pt, isPtr := recv.Type().(*types.Pointer)
+					if !isPtr || !(types.Identical(pt.Elem(), pr.Type) || types.Identical(pt.Elem(), lr.Lexer)) {
+						continue
+					}
+					for o := range oa.origins(call.Call.Args[0], map[ssa.Value]bool{}) {
+						if strings.HasPrefix(o, "freevar:") || strings.HasPrefix(o, "global:") {
+							r.bad(rule, fmt.Sprintf("%s|%s on %s", fnName(fn), fnName(g), o), c.instrPos(in), fmt.Sprintf("%s calls %s on an object reached through %s: the method advances state that outlives the call, so a second use (or a concurrent one) continues where the first stopped instead of starting afresh", fnName(fn), fnName(g), o))
+						}
+					}
+				}
+			}
+		}
 		// no parser/Lexer is stored in a global or captured
 		for _, fn := range []*ssa.Function{pr.Parse, lr.LexCtor} {
 			for _, w := range c.memWrites(fn) {
